@@ -4,7 +4,7 @@
    C17 (the seeded Louvain runs of the reproducibility check). *)
 From Coq Require Import String List Bool ZArith NArith Arith QArith.
 From GV Require Import Base.Outcome Base.AMap Model.GState Model.Creation Model.Query Model.Derived
-     Model.Partition Model.Louvain Spec.AGraph Spec.PartitionDef Proofs.PartitionStateOk Run.Obs.
+     Model.Partition Model.Louvain Spec.AGraph Spec.PartitionDef Proofs.PartitionStateOk Proofs.AggregationOk Run.Obs.
 Import ListNotations.
 Open Scope Z_scope.
 
@@ -89,6 +89,44 @@ Definition monotone_flag (g : zstate) (weighted : bool) (gamma : Q) (levels : li
   | None => true
   end.
 
+(* per-case link between the state-level generate_graph and the list-level [aggregate] that
+   C13_aggregation_preserves_Q is about: after the first local-moving phase, the edges of the
+   generated community graph are, as a multiset, the aggregation of the working graph's edges *)
+Fixpoint part_index (x : nat) (parts : list (list nat)) (i : nat) : nat :=
+  match parts with
+  | [] => i
+  | p :: t => if mem Nat.eqb x p then i else part_index x t (S i)
+  end.
+
+Definition wedge_in (e : nat * nat * Q) (l : list (nat * nat * Q)) : bool :=
+  existsb (fun f => Nat.eqb (wu e) (wu f) && Nat.eqb (wv e) (wv f) && Qeq_bool (ww e) (ww f)) l.
+
+Definition same_wedges (a b : list (nat * nat * Q)) : bool :=
+  Nat.eqb (length a) (length b) && forallb (fun e => wedge_in e b) a && forallb (fun e => wedge_in e a) b.
+
+Definition agg_link_flag (g : zstate) (weighted : bool) (gamma : Q) (perms : list (list nat)) : bool :=
+  match convert_graph Z.eqb Z.ltb g weighted (node_map_of Z.ltb g) with
+  | Ok gu =>
+    match size_q gu weighted with
+    | Ok m =>
+      match compute_one_level SWEEP_FUEL gu m (map_node_names_to_hashsets gu) gamma perms with
+      | Ok (_, inner, _, _) =>
+        match generate_graph gu inner, wedges_of true (get_all_edges gu) with
+        | Ok g2, Some es =>
+          match wedges_of true (get_all_edges g2) with
+          | Some es2 =>
+            same_wedges es2 (aggregate (directed (sp gu)) (map (relabel (fun x => part_index x inner 0)) es))
+          | None => false
+          end
+        | _, _ => false
+        end
+      | _ => false
+      end
+    | _ => true
+    end
+  | _ => false
+  end.
+
 Definition run_louv (g : zstate) (weighted : bool) (gamma thr : Q) (seeded : bool) (perms : list (list nat))
   : list obs :=
   let r := louvain_partitions_t Z.eqb Z.ltb LEVEL_FUEL SWEEP_FUEL g weighted gamma thr perms in
@@ -101,7 +139,8 @@ Definition run_louv (g : zstate) (weighted : bool) (gamma thr : Q) (seeded : boo
      map (fun l => (1300, level_rows l, [])) levels ++
      [level_mod_obs g weighted gamma levels;
       (74, [[if check_levels Z.eqb (names_of g) levels then 1 else 0]], []);
-      (75, [[if monotone_flag g weighted gamma levels then 1 else 0]], [])]
+      (75, [[if monotone_flag g weighted gamma levels then 1 else 0]], []);
+      (76, [[if agg_link_flag g weighted gamma perms then 1 else 0]], [])]
    | _ => []
    end) ++
   code_obs rc ::
